@@ -23,7 +23,7 @@ CHECKS = {
     "C06": dict(
         engine="IterUnorderedMPI+CreateMPI+CollectiveIO",
         technique="TLC model checking (safety + liveness under weak fairness) of spec/IterUnorderedMPI.tla, CreateMPI.tla, CollectiveIO.tla on MPISem.tla; trace validation of the real library running on a fake mpi4py against IterUnorderedMPITrace/CreateMPITrace; replay of TLC counterexamples and simulated behaviours on the deterministic runtime",
-        text="TLC explores every interleaving (wildcard matches, eager vs rendezvous completion) of the iter_unordered protocol and of the MPI catalog-writer pipeline for world sizes 2..4(5), all max_workers, and proves termination, exactly-once execution and no record loss for the design; deviation configs reproduce the defects of the code as found. The real functions run on a deterministic fake mpi4py: their event logs must be behaviours of the specs (checked by TLC, incl. message class/argument/peer/mode), TLC behaviours are replayed into them, recorded collective skeletons are model-checked for all schedules, and the root's results of whole workloads are compared with a single-process reference under random schedules. Deadlock detection is exact.",
+        text="TLC explores every interleaving (wildcard matches, eager vs rendezvous completion) of the iter_unordered protocol and of the MPI catalog-writer pipeline for world sizes 2..4(5), all max_workers, and proves termination, exactly-once execution and no record loss for the design; deviation configs reproduce the defects of the code as found. The real functions run on a deterministic fake mpi4py: their event logs must be behaviours of the specs (checked by TLC, incl. message class/argument/peer/mode), TLC behaviours are replayed into them, recorded collective skeletons are model-checked for all schedules, and the root's results of whole workloads are compared with a single-process reference under random schedules. Invalid requests that a single process rejects before touching data (probe larger than the random sample, missing cache, catalogs with different patch sets) must be rejected alike on every rank and the program must reach its next collective. Deadlock detection is exact.",
         note="Trusts the fake mpi4py as an implementation of MPISem.tla (MPI-3.1 point-to-point ordering and wildcard semantics, non-synchronising bcast/gather); no real MPI is available in the sandbox. Ranks are cooperative threads.",
         ref="DESIGN.md 3.1, 4 C06",
     ),
@@ -86,21 +86,21 @@ CHECKS = {
     "C17": dict(
         engine="Containers",
         technique="TLC model checking of spec/Containers.tla (container algebra, indexing, compatibility on exact integers/rationals) with every enumerated history of public operations replayed step by step on the real classes",
-        text="TLC proves the laws of the property (sum, scalar, equality, selection commuting with sampling and addition, patch-sum, iteration = indexing, accept-iff-valid) on exact rationals for all explored scenarios and histories up to depth 2 (quick) or 3 (thorough). Every one of those histories is executed on the real PatchedCounts, PatchedSumWeights, NormalisedCounts, CorrFunc, SampledData/CorrData with result, outcome class and purity of all operands compared after each step. Deviation configs reproduce each defect of the code as found as a TLC counterexample that is replayed on the code. Exhaustive within the bounds: up to 4 bins x 4 patches, count values 0-2, weights 1-2, 13 scalar classes, all ints from -n-1 to n and 11 slice forms.",
+        text="TLC proves the laws of the property (sum, scalar, equality, selection commuting with sampling and addition, patch-sum, iteration = indexing, accept-iff-valid) on exact rationals for all explored scenarios and histories up to depth 2 (quick) or 3 (thorough). Every one of those histories is executed on the real PatchedCounts, PatchedSumWeights, NormalisedCounts, CorrFunc, SampledData/CorrData with result, outcome class and purity of all operands compared after each step. Deviation configs reproduce each defect of the code as found as a TLC counterexample that is replayed on the code. Exhaustive within the bounds: up to 4 bins x 4 patches, count values 0-2, weights 1-2, 13 scalar classes, all ints from -n-1 to n as Python ints and as numpy integer scalars (int64, int32, intp, an element of arange) and 11 slice forms; get_array accessors; sums of operands with the same shape but another normalisation (rejected); equality on containers holding NaN in both argument orders.",
         note="Trusted: TLC, the projection and builders in harness/containers.py (validated by corrupted-expectation demonstrations), float comparison at 1e-9 relative (counts exact). Exception types, empty selections and 0/0 cases are not judged.",
         ref="DESIGN.md 3.6, 4 C17",
     ),
     "C04": dict(
         engine="Containers",
         technique="TLC model checking of spec/Containers.tla (estimator choice, normaliser, n(z) formula, normalisation integral on exact rationals) with every enumerated scenario replayed on the real CorrFunc.sample / RedshiftData / HistData, plus end-to-end runs on measured pair counts",
-        text="TLC checks NormaliserLaw (product of totals, half the squared total for auto, also for every leave-one-out sample), JackknifeShortcut, EstimatorLaw (Landy-Szalay with RD replaced by DR when missing, Davis-Peebles otherwise), RedshiftLaw and IntegralIsOne on exact rationals for all 7 member subsets x auto/cross x shapes x contents, and prints the expected value of every sample. Each scenario is built as real containers and CorrFunc.sample(), RedshiftData.from_corrfuncs/from_corrdata and normalised() are compared value by value and jackknife row by row; the same formulas are checked end-to-end on pair counts measured with crosscorrelate/autocorrelate for all random-catalog combinations. Member sets for which the property prescribes no formula accept 'formula or rejection'.",
+        text="TLC checks NormaliserLaw (product of totals, half the squared total for auto, also for every leave-one-out sample), JackknifeShortcut, EstimatorLaw (Landy-Szalay with RD replaced by DR when missing, Davis-Peebles otherwise), RedshiftLaw and IntegralIsOne on exact rationals for all 7 member subsets x auto/cross x shapes x contents, and prints the expected value of every sample. Each scenario is built as real containers and CorrFunc.sample(), RedshiftData.from_corrfuncs/from_corrdata and normalised() are compared value by value and jackknife row by row; the same formulas are checked end-to-end on pair counts measured with crosscorrelate/autocorrelate for all random-catalog combinations. Member sets for which the property prescribes no formula accept 'formula or rejection'. The read accessors (get_array of every level, also through a CorrFunc's members) are an action of the model (exact rational arrays, GetArrayLaw) so that accessor-then-estimator histories are replayed and operand purity is compared after every step; scenarios include an empty redshift bin (NaN in real data containers).",
         note="Same trusted base as C17; the end-to-end reference evaluator is validated against TLC on every Sample case.",
         ref="DESIGN.md 3.6, 4 C04",
     ),
     "C16": dict(
         engine="RandomGen+RandomWindow",
         technique="TLC model checking of spec/RandomGen.tla (generator re-seeding and RandomReader / from_random size bookkeeping, random stream abstracted to tokens) and spec/RandomWindow.tla (cylindrical equal-area sampling on an exact rational grid); every enumerated history replayed on the real BoxRandoms / HealPixRandoms / RandomReader / Catalog.from_random with bit-exact comparison against a brand-new generator; recorded operation logs validated by TLC (RandomGenTrace)",
-        text="TLC checks ExactSize, ReseedAtPassStart, Reproducible, ReseedRestores, SeedControlled, CreateNeverRejected and termination over all histories of <=4 (quick) / <=5 (thorough) public operations and over a size sweep of N x chunksize x patch_num x probe_size; seven named deviations each yield a counterexample. Every history (9k / 207k) is executed on the real library; each output is compared bit-exactly with its token realised on a brand-new generator; exact count, footprint and joint (weight, redshift) source row are the predicates. 100 grid windows (poles, RA<0, RA>360) are drawn and compared with TLC's exact cell fractions at 6 sigma; random long operation logs are validated by RandomGenTrace, a corrupted log is rejected.",
+        text="TLC checks ExactSize, ReseedAtPassStart, Reproducible, ReseedRestores, SeedControlled, CreateNeverRejected and termination over all histories of <=4 (quick) / <=5 (thorough) public operations and over a size sweep of N x chunksize x patch_num x probe_size; seven named deviations each yield a counterexample. Every history (9k / 207k) is executed on the real library; each output is compared bit-exactly with its token realised on a brand-new generator; exact count, footprint and joint (weight, redshift) source row are the predicates. 100 grid windows (poles, RA<0, RA>360) are drawn and compared with TLC's exact cell fractions at 6 sigma; random long operation logs are validated by RandomGenTrace, a corrupted log is rejected. The seed value is part of the case analysis (real seed 0 is a seed, distinct from 'no seed'): every history starts with the construction, reseed(s) for 0 and non-zero seeds and reseed() occur at every point (SeedAsRequested, ConstructNeverRejected); an exception of a public constructor or call on a valid input is a violation, never a crash of the check.",
         note="'Uniformly distributed in area' is statistical: decided only against gross deviations (6 sigma on 1e5/1e6 points per window), fine-scale uniformity and independence are not decided. numpy's Generator is trusted to be a deterministic function of its SeedSequence; harness/fakehealpy.py stands in for healpy (not installed) and is self-tested.",
         ref="DESIGN.md 3.3, 4 C16",
     ),
@@ -128,7 +128,7 @@ CHECKS = {
     "C15": dict(
         engine="Config",
         technique="TLC model checking of spec/Config.tla (declarative parameter semantics vs an implementation-shaped operational model of create/modify/from_dict/to_dict/__eq__/angle conversion, 9 deviation configs); every enumerated history replayed on the real yaw.config classes with projection of the real objects onto the abstract state after each code step",
-        text="TLC enumerates every parameter record of the slice domains (all binning methods incl. custom/invalid edges, both closed sides, all 8 units + an unknown one, single/multiple/overlapping/invalid scales, 10 cosmology argument classes, zmin = 0, edges=None) together with every history of up to 2 (quick) / 3 (thorough) modifications of up to 2 / 3 parameters each, and proves that the step-by-step design returns exactly the configuration the merged parameters declare and rejects exactly the declared-invalid ones. Each of the ~8.7k / ~94k histories is executed on the real library and compared after every operation: edge formula per method and cosmology, exact end points, scales, cosmology, workers, the sub-calls, angles vs astropy r/D(z), == of equal-parameter twins, dict/YAML rebuild and bit-identity of the original. Deviation configs reproduce every defect of the code as found; each counterexample is replayed on the code.",
+        text="TLC enumerates every parameter record of the slice domains (all binning methods incl. custom/invalid edges, both closed sides, all 8 units + an unknown one, single/multiple/overlapping/invalid scales, 10 cosmology argument classes, zmin = 0, edges=None) together with every history of up to 2 (quick) / 3 (thorough) modifications of up to 2 / 3 parameters each, and proves that the step-by-step design returns exactly the configuration the merged parameters declare and rejects exactly the declared-invalid ones. Each of the ~8.7k / ~94k histories is executed on the real library and compared after every operation: edge formula per method and cosmology, exact end points, scales, cosmology, workers, the sub-calls, angles vs astropy r/D(z), == of equal-parameter twins, dict/YAML rebuild and bit-identity of the original. Deviation configs reproduce every defect of the code as found; each counterexample is replayed on the code. Cosmology objects include curved LambdaCDM models and a custom cosmology whose angular diameter distance is unrelated to comoving/(1+z) (expected angle = r/D(z) with D the spec-named method of that object, cross-checked against an own Friedmann integral); configurations are also built with the public constructor from the parts objects of another configuration with another cosmology, and every angle conversion is observed repeatedly on donor and new object in both orders and must be pure.",
         note="Edges are matched against the formula with tolerances (exact for linear/custom, 1e-9 logspace, 1e-6 comoving interior edges; end points exactly); expected distances come from astropy and an independent brentq inversion; values lie on a small grid (z in 1/100, Planck15, WMAP9, one unnamed FLRW, one float-returning CustomCosmology).",
         ref="DESIGN.md 3.6, 4 C15",
     ),
